@@ -10,8 +10,30 @@ Definition HD (s : db) : Prop := forall r, isholder s r -> tdead s r.
 
 Lemma HD_frame C s s' : HD s -> tframe C s s' -> HD s'.
 Proof.
-  intros H F r I. destruct (tf_hold _ _ _ F r I) as [I'|]; auto. eapply tframe_dead; eauto.
+  intros H F r I. destruct (tf_hold _ _ _ F r I) as [I'|[D _]]; auto. eapply tframe_dead; eauto.
 Qed.
+
+(* holder references and stored records are allocated (below `next`) *)
+Definition HF (s : db) : Prop := forall r, isholder s r -> r < next s.
+Definition SK (s : db) : Prop := forall r l, aget (store s) r = Some l -> r < next s.
+
+Lemma HF_frame C s s' : HF s -> tframe C s s' -> HF s'.
+Proof.
+  intros H F r I. pose proof (tf_next _ _ _ F). destruct (tf_hold _ _ _ F r I) as [I'|[_ L]]; auto.
+  specialize (H r I'). lia.
+Qed.
+
+Lemma SK_frame C s s' : SK s -> tframe C s s' -> SK s'.
+Proof.
+  intros H F r l' G. pose proof (tf_next _ _ _ F). destruct (tf_keys _ _ _ F r l' G) as [(l & A)|]; auto.
+  specialize (H r l A). lia.
+Qed.
+
+Lemma lt_next_frame C s s' r : tframe C s s' -> r < next s -> r < next s'.
+Proof. intros F H. pose proof (tf_next _ _ _ F). lia. Qed.
+
+Lemma new_lock_next s k conn c : next s < next (fst (new_lock s k conn c)).
+Proof. unfold new_lock. cbn [fst]. unfold updm, setm. destruct (aget _ _); cbn; lia. Qed.
 
 Lemma Pstore_frame (C P : cmd -> Prop) s s' : (forall c, C c -> P c) -> Pstore P s -> tframe C s s' -> Pstore P s'.
 Proof.
@@ -45,6 +67,12 @@ Qed.
 Lemma new_lock_dead s k conn c : tdead (fst (new_lock s k conn c)) (next s).
 Proof. intros l H. rewrite new_lock_aget in H. injection H as <-. reflexivity. Qed.
 
+Lemma tframe_mono (C C' : cmd -> Prop) s s' : (forall c, C c -> C' c) -> tframe C s s' -> tframe C' s s'.
+Proof.
+  intros H [n1 c1 x1 w1 g1 v1 m1 y1 h1]. constructor; auto.
+  intros r l' G. destruct (m1 r l' G); auto.
+Qed.
+
 Section Steps.
 Variable C : cmd -> Prop.
 
@@ -73,9 +101,9 @@ Proof. unfold getl. destruct (aget (store s) r); [right; eauto|left; reflexivity
 Hypothesis Cdummy : C dummy_cmd.
 Hypothesis Ccore : forall c, C c -> core_cmd c.
 
-Lemma add_lock_frame s k r : tdead s r -> tframe C s (add_lock s k r).
+Lemma add_lock_frame s k r : tdead s r -> r < next s -> tframe C s (add_lock s k r).
 Proof.
-  intros D0. apply getl_dead in D0. unfold add_lock. pose proof (getl_cmd_cases s r) as GC. set (l0 := getl s r) in *.
+  intros D0 FR. apply getl_dead in D0. unfold add_lock. pose proof (getl_cmd_cases s r) as GC. set (l0 := getl s r) in *.
   match goal with |- context [setl s r ?l] => set (l' := l) end.
   assert (l_timeouted l' = true /\ l_cmd l' = l_cmd l0) as [D' Cm].
   { unfold l'. destruct (has (c_tflag (l_cmd l0)) TF_UNRENEW); destruct (has (c_flag (l_cmd l0)) LOCK_FLAG_FROM_AOF);
@@ -94,17 +122,48 @@ Proof.
     intros x I. unfold holder_refs in I. cbn in I. apply in_app_iff in I. destruct I as [I|I].
     + apply (tf_hold _ _ _ (tframe_trans _ _ _ _ F1 A)). apply (getm_holder s' k). unfold holder_refs.
       apply in_app_iff; left; auto.
-    + apply B in I. destruct I as [<-|I]; [right; eapply tframe_dead; eauto|].
+    + apply B in I. destruct I as [<-|I]; [right; split; [eapply tframe_dead; eauto|eapply lt_next_frame; eauto]|].
       left. apply (getm_holder s k). unfold holder_refs. apply in_app_iff; right.
       destruct (m_locks (getm s k)); auto; try destruct I.
   - apply tframe_updm_in; auto.
-    intros x I. rewrite M1 in I. unfold holder_refs in I. cbn in I. destruct I as [<-|I]; [right; auto|].
+    intros x I. rewrite M1 in I. unfold holder_refs in I. cbn in I. destruct I as [<-|I]; [right; split; auto|].
     left. apply (getm_holder s k). unfold holder_refs. rewrite CUR. auto.
 Qed.
 
-Lemma update_locked_lock_frame s k r c : tdead s r -> C c -> tframe C s (update_locked_lock s k r c).
+(* the same for a record known to be allocated: no use of the dummy command *)
+Lemma add_lock_frame_p s k r l0 :
+  aget (store s) r = Some l0 -> tdead s r -> r < next s -> tframe C s (add_lock s k r).
 Proof.
-  intros D0 Hc. apply getl_dead in D0. unfold update_locked_lock. set (l0 := getl s r) in *.
+  intros G0 D0 FR. apply getl_dead in D0. unfold add_lock. rewrite (getl_some _ _ _ G0) in *.
+  match goal with |- context [setl s r ?l] => set (l' := l) end.
+  assert (l_timeouted l' = true /\ l_cmd l' = l_cmd l0) as [D' Cm].
+  { unfold l'. destruct (has (c_tflag (l_cmd l0)) TF_UNRENEW); destruct (has (c_flag (l_cmd l0)) LOCK_FLAG_FROM_AOF);
+      destruct (has (c_tflag (l_cmd l0)) TF_REQUIRE_ACKED); cbn;
+      repeat match goal with |- context [match ?x with _ => _ end] => destruct x end; cbn; auto. }
+  assert (tframe C s (setl s r l')) as F1.
+  { apply tframe_setl_dead; auto. right. exists l0. auto. }
+  assert (tdead (setl s r l') r) as D1.
+  { intros l H. rewrite aget_setl, N.eqb_refl in H. injection H as <-. auto. }
+  assert (getm (setl s r l') k = getm s k) as M1 by reflexivity.
+  cbv zeta. destruct (m_cur (getm s k)) as [cr|] eqn:CUR.
+  - match goal with |- context [hq_push ?a ?q r] =>
+      destruct (hq_push_frame C a q r) as [A B]; destruct (hq_push a q r) as [s' q'] eqn:HP end.
+    cbn [fst snd] in A, B.
+    apply tframe_updm_in; [eapply tframe_trans; eauto|].
+    intros x I. unfold holder_refs in I. cbn in I. apply in_app_iff in I. destruct I as [I|I].
+    + apply (tf_hold _ _ _ (tframe_trans _ _ _ _ F1 A)). apply (getm_holder s' k). unfold holder_refs.
+      apply in_app_iff; left; auto.
+    + apply B in I. destruct I as [<-|I]; [right; split; [eapply tframe_dead; eauto|eapply lt_next_frame; eauto]|].
+      left. apply (getm_holder s k). unfold holder_refs. apply in_app_iff; right.
+      destruct (m_locks (getm s k)); auto; try destruct I.
+  - apply tframe_updm_in; auto.
+    intros x I. rewrite M1 in I. unfold holder_refs in I. cbn in I. destruct I as [<-|I]; [right; split; auto|].
+    left. apply (getm_holder s k). unfold holder_refs. rewrite CUR. auto.
+Qed.
+
+Lemma update_locked_lock_frame s k r c : tdead s r -> r < next s -> C c -> tframe C s (update_locked_lock s k r c).
+Proof.
+  intros D0 FR Hc. apply getl_dead in D0. unfold update_locked_lock. set (l0 := getl s r) in *.
   match goal with |- tframe _ _ (setl s r ?l) => set (l' := l) end.
   assert (l_timeouted l' = true /\ l_cmd l' = c) as [D' Cm].
   { unfold l'. repeat match goal with |- context [if ?x then _ else _] => destruct x end; cbn; auto. }
@@ -175,10 +234,10 @@ with tf :=
   end.
 
 (* ---------------------------------------------------------------- update / re-lock re-arm *)
-Lemma update_and_rearm_frame s k r c : tdead s r -> C c -> tframe C s (fst (update_and_rearm s k r c)).
+Lemma update_and_rearm_frame s k r c : tdead s r -> r < next s -> C c -> tframe C s (fst (update_and_rearm s k r c)).
 Proof.
-  intros D Hc. unfold update_and_rearm.
-  pose proof (update_locked_lock_frame s k r c D Hc) as FU.
+  intros D FR Hc. unfold update_and_rearm.
+  pose proof (update_locked_lock_frame s k r c D FR Hc) as FU.
   cbv zeta. repeat break_inner; cbn [fst]; repeat frame_hyp; tf.
 Qed.
 
@@ -212,7 +271,11 @@ Qed.
 (* ---------------------------------------------------------------- wake-up pass *)
 Ltac tf2 :=
   lazymatch goal with
-  | |- tframe _ ?s (add_lock ?x ?k ?r) => apply (tframe_trans C s x); [tf2|apply add_lock_frame; tdead_tac]
+  | |- tframe _ ?s ?s => apply tframe_refl
+  | |- tframe _ ?s (add_lock ?x ?k ?r) =>
+      apply (tframe_trans C s x);
+      [tf2|apply add_lock_frame;
+           [tdead_tac|match goal with H : r < next ?y |- _ => apply (lt_next_frame C y x r); [tf|exact H] end]]
   | |- tframe _ ?s (updl ?x ?r ?f) => apply (tframe_trans C s x); [tf2|apply tframe_updl; updl_side]
   | |- tframe _ ?s (updm ?x ?k ?f) => apply (tframe_trans C s x); [tf2|apply tframe_updm; intros ?m; apply incl_refl]
   | |- tframe _ ?s (bump ?f ?x) => apply (tframe_trans C s x); [tf2|apply tframe_bump]
@@ -234,9 +297,9 @@ Proof.
 Qed.
 
 Lemma wake_grant_frame s k r via :
-  core_cmd (l_cmd (getl s r)) -> tframe C s (fst (wake_grant s k r via)).
+  core_cmd (l_cmd (getl s r)) -> r < next s -> tframe C s (fst (wake_grant s k r via)).
 Proof.
-  intros (H1 & H2 & H3 & H4). unfold wake_grant. cbv zeta. rewrite H1. cbn [andb].
+  intros (H1 & H2 & H3 & H4) FR. unfold wake_grant. cbv zeta. rewrite H1. cbn [andb].
   set (s1 := updl s r (fun l => l <| l_timeouted := true |>)).
   assert (tdead s1 r) as D1 by (apply tdead_updl_kill; reflexivity).
   assert (tframe C s s1) as F1 by (apply tframe_updl; updl_side).
@@ -248,36 +311,120 @@ Proof.
 Qed.
 
 Lemma wake_iter_frame s w :
-  Pstore core_cmd s -> tframe C s (fst (fst (wake_iter s w))).
+  Pstore core_cmd s -> SK s -> tframe C s (fst (fst (wake_iter s w))).
 Proof.
-  intros PS. unfold wake_iter. destruct (aget (mgrs s) (w_key w)); [|apply tframe_refl].
+  intros PS KS. unfold wake_iter. destruct (aget (mgrs s) (w_key w)); [|apply tframe_refl].
   destruct (negb (m_waited m)); [apply tframe_refl|].
   pose proof (get_wait_lock_frame C s (w_key w)) as F. pose proof (get_wait_lock_live s (w_key w)) as L.
   destruct (get_wait_lock s (w_key w)) as [s1 [r|]]; cbn [fst] in *.
   - destruct (negb (do_lock s1 (w_key w) r)); [exact F|].
     assert (Pstore core_cmd s1) as PS1 by (eapply Pstore_frame; eauto).
-    assert (core_cmd (l_cmd (getl s1 r))) as CC.
-    { specialize (L s1 r eq_refl). unfold getl in *. destruct (aget (store s1) r) eqn:G; [eapply PS1; eauto|].
+    assert (SK s1) as KS1 by (eapply SK_frame; eauto).
+    assert (core_cmd (l_cmd (getl s1 r)) /\ r < next s1) as [CC FR].
+    { specialize (L s1 r eq_refl). unfold getl in *. destruct (aget (store s1) r) eqn:G; [split; [eapply PS1|eapply KS1]; eauto|].
       cbn in L. discriminate. }
-    pose proof (wake_grant_frame s1 (w_key w) r (w_conn w) CC) as F2.
+    pose proof (wake_grant_frame s1 (w_key w) r (w_conn w) CC FR) as F2.
     destruct (wake_grant s1 (w_key w) r (w_conn w)) as [s2 ev]; cbn [fst] in *. eapply tframe_trans; eauto.
   - tf.
 Qed.
 
-Lemma run_wake_frame fuel : forall s w, Pstore core_cmd s -> tframe C s (fst (run_wake fuel s w)).
+Lemma run_wake_frame fuel : forall s w, Pstore core_cmd s -> SK s -> tframe C s (fst (run_wake fuel s w)).
 Proof.
-  induction fuel as [|f IH]; intros s w PS; cbn; [apply tframe_refl|].
-  pose proof (wake_iter_frame s w PS) as F. destruct (wake_iter s w) as [[s1 ev] [|]]; cbn [fst] in *; auto.
+  induction fuel as [|f IH]; intros s w PS KS; cbn; [apply tframe_refl|].
+  pose proof (wake_iter_frame s w PS KS) as F. destruct (wake_iter s w) as [[s1 ev] [|]]; cbn [fst] in *; auto.
   assert (Pstore core_cmd s1) as PS1 by (eapply Pstore_frame; eauto).
-  specialize (IH s1 w PS1). destruct (run_wake f s1 w) as [s2 ev2]; cbn [fst] in *. eapply tframe_trans; eauto.
+  assert (SK s1) as KS1 by (eapply SK_frame; eauto).
+  specialize (IH s1 w PS1 KS1). destruct (run_wake f s1 w) as [s2 ev2]; cbn [fst] in *. eapply tframe_trans; eauto.
 Qed.
 
 Lemma finish_frame s0 res :
-  Pstore core_cmd s0 -> tframe C s0 (fst (fst res)) -> tframe C s0 (fst (finish res)).
+  Pstore core_cmd s0 -> SK s0 -> tframe C s0 (fst (fst res)) -> tframe C s0 (fst (finish res)).
 Proof.
-  intros PS F. destruct res as [[s ev] [w|]]; cbn [fst finish] in *; auto.
+  intros PS KS F. destruct res as [[s ev] [w|]]; cbn [fst finish] in *; auto.
   assert (Pstore core_cmd s) as PS1 by (eapply Pstore_frame; eauto).
-  pose proof (run_wake_frame (wake_fuel s (w_key w)) s w PS1) as F2.
+  assert (SK s) as KS1 by (eapply SK_frame; eauto).
+  pose proof (run_wake_frame (wake_fuel s (w_key w)) s w PS1 KS1) as F2.
+  destruct (run_wake _ s w) as [s2 ev2]; cbn [fst] in *. eapply tframe_trans; eauto.
+Qed.
+
+(* presence-based variants (no dummy command needed): used with C := fun _ => False, where a frame cannot create
+   records at all *)
+Ltac tf2p P :=
+  lazymatch goal with
+  | |- tframe _ ?s ?s => apply tframe_refl
+  | |- tframe _ ?s (add_lock ?x ?k ?r) =>
+      apply (tframe_trans C s x);
+      [tf2p P|eapply add_lock_frame_p;
+           [exact P|tdead_tac|match goal with H : r < next ?y |- _ => apply (lt_next_frame C y x r); [tf|exact H] end]]
+  | |- tframe _ ?s (updl ?x ?r ?f) => apply (tframe_trans C s x); [tf2p P|apply tframe_updl; updl_side]
+  | |- tframe _ ?s (updm ?x ?k ?f) => apply (tframe_trans C s x); [tf2p P|apply tframe_updm; intros ?m; apply incl_refl]
+  | |- tframe _ ?s (bump ?f ?x) => apply (tframe_trans C s x); [tf2p P|apply tframe_bump]
+  | F : tframe _ ?s ?t |- tframe _ ?s ?t => exact F
+  | F : tframe _ ?x ?t |- tframe _ ?s ?t => apply (tframe_trans C s x t); [tf2p P|exact F]
+  | |- _ => tf
+  end.
+
+Lemma present_updl s r f r' : aget (store s) r' <> None -> aget (store (updl s r f)) r' <> None.
+Proof. intros H. rewrite aget_updl. destruct (r =? r'); auto. destruct (aget (store s) r'); cbn; congruence. Qed.
+
+Lemma present_remove_long_timeout s r r' : aget (store s) r' <> None -> aget (store (remove_long_timeout s r)) r' <> None.
+Proof.
+  intros H. unfold remove_long_timeout. destruct (aget (tlong s) _); apply present_updl; auto.
+Qed.
+
+Lemma wake_grant_frame_p s k r via :
+  aget (store s) r <> None -> core_cmd (l_cmd (getl s r)) -> r < next s -> tframe C s (fst (wake_grant s k r via)).
+Proof.
+  intros PR (H1 & H2 & H3 & H4) FR. unfold wake_grant. cbv zeta. rewrite H1. cbn [andb].
+  set (s1 := updl s r (fun l => l <| l_timeouted := true |>)).
+  assert (tdead s1 r) as D1 by (apply tdead_updl_kill; reflexivity).
+  assert (tframe C s s1) as F1 by (apply tframe_updl; updl_side).
+  set (s2 := if l_long (getl s r) then remove_long_timeout s1 r else s1).
+  assert (tframe C s1 s2) as F2 by (unfold s2; destruct (l_long (getl s r)); [apply tframe_remove_long_timeout; auto|apply tframe_refl]).
+  assert (tdead s2 r) as D2 by (eapply tframe_dead; eauto).
+  assert (exists l2, aget (store s2) r = Some l2) as (l2 & P2).
+  { assert (aget (store s2) r <> None) as X.
+    { unfold s2. destruct (l_long (getl s r)); [apply present_remove_long_timeout|]; apply present_updl; auto. }
+    destruct (aget (store s2) r); [eauto|congruence]. }
+  clearbody s2 s1.
+  repeat break_inner; cbn [fst]; repeat frame_hyp; tf2p P2.
+Qed.
+
+Lemma wake_iter_frame_p s w :
+  Pstore core_cmd s -> SK s -> tframe C s (fst (fst (wake_iter s w))).
+Proof.
+  intros PS KS. unfold wake_iter. destruct (aget (mgrs s) (w_key w)); [|apply tframe_refl].
+  destruct (negb (m_waited m)); [apply tframe_refl|].
+  pose proof (get_wait_lock_frame C s (w_key w)) as F. pose proof (get_wait_lock_live s (w_key w)) as L.
+  destruct (get_wait_lock s (w_key w)) as [s1 [r|]]; cbn [fst] in *.
+  - destruct (negb (do_lock s1 (w_key w) r)); [exact F|].
+    assert (Pstore core_cmd s1) as PS1 by (eapply Pstore_frame; eauto).
+    assert (SK s1) as KS1 by (eapply SK_frame; eauto).
+    assert (aget (store s1) r <> None /\ core_cmd (l_cmd (getl s1 r)) /\ r < next s1) as (PR & CC & FR).
+    { specialize (L s1 r eq_refl). unfold getl in *. destruct (aget (store s1) r) eqn:G;
+        [lsplit; [congruence|eapply PS1; eauto|eapply KS1; eauto]|].
+      cbn in L. discriminate. }
+    pose proof (wake_grant_frame_p s1 (w_key w) r (w_conn w) PR CC FR) as F2.
+    destruct (wake_grant s1 (w_key w) r (w_conn w)) as [s2 ev]; cbn [fst] in *. eapply tframe_trans; eauto.
+  - tf.
+Qed.
+
+Lemma run_wake_frame_p fuel : forall s w, Pstore core_cmd s -> SK s -> tframe C s (fst (run_wake fuel s w)).
+Proof.
+  induction fuel as [|f IH]; intros s w PS KS; cbn; [apply tframe_refl|].
+  pose proof (wake_iter_frame_p s w PS KS) as F. destruct (wake_iter s w) as [[s1 ev] [|]]; cbn [fst] in *; auto.
+  assert (Pstore core_cmd s1) as PS1 by (eapply Pstore_frame; eauto).
+  assert (SK s1) as KS1 by (eapply SK_frame; eauto).
+  specialize (IH s1 w PS1 KS1). destruct (run_wake f s1 w) as [s2 ev2]; cbn [fst] in *. eapply tframe_trans; eauto.
+Qed.
+
+Lemma finish_frame_p s0 res :
+  Pstore core_cmd s0 -> SK s0 -> tframe C s0 (fst (fst res)) -> tframe C s0 (fst (finish res)).
+Proof.
+  intros PS KS F. destruct res as [[s ev] [w|]]; cbn [fst finish] in *; auto.
+  assert (Pstore core_cmd s) as PS1 by (eapply Pstore_frame; eauto).
+  assert (SK s) as KS1 by (eapply SK_frame; eauto).
+  pose proof (run_wake_frame_p (wake_fuel s (w_key w)) s w PS1 KS1) as F2.
   destruct (run_wake _ s w) as [s2 ev2]; cbn [fst] in *. eapply tframe_trans; eauto.
 Qed.
 
@@ -292,6 +439,33 @@ Lemma do_expried_frame s r : tframe C s (fst (fst (do_expried s r))).
 Proof.
   unfold do_expried. destruct (aget (store s) r) as [l|]; [|apply tframe_refl].
   cbv zeta. repeat break_inner; cbn [fst]; repeat frame_hyp; tf.
+Qed.
+
+(* C05 (d): doTimeOut tombstones the record before it replies; a (non-ack) grant tombstones it too *)
+Lemma do_timeout_kills s r : tdead (fst (fst (do_timeout s r))) r.
+Proof.
+  unfold do_timeout. destruct (aget (store s) r) as [l|] eqn:G; [|apply tdead_absent; auto].
+  destruct (l_timeouted l) eqn:T.
+  - assert (tdead s r) as D0 by (intros l0 G0; congruence).
+    cbv zeta. repeat break_inner; cbn [fst]; tdead_tac.
+  - set (s1 := updl s r (fun l => l <| l_timeouted := true |>)).
+    assert (tdead s1 r) as D1 by (apply tdead_updl_kill; reflexivity).
+    cbv zeta. fold s1. clearbody s1. repeat break_inner; cbn [fst]; repeat frame_hyp; tdead_tac.
+Qed.
+
+Lemma wake_grant_kills s k r via :
+  core_cmd (l_cmd (getl s r)) -> r < next s -> tdead (fst (wake_grant s k r via)) r.
+Proof.
+  intros (H1 & H2 & H3 & H4) FR. unfold wake_grant. cbv zeta. rewrite H1. cbn [andb].
+  set (s1 := updl s r (fun l => l <| l_timeouted := true |>)).
+  assert (tdead s1 r) as D1 by (apply tdead_updl_kill; reflexivity).
+  assert (tframe C s s1) as F1 by (apply tframe_updl; updl_side).
+  set (s2 := if l_long (getl s r) then remove_long_timeout s1 r else s1).
+  assert (tframe C s1 s2) as F2 by (unfold s2; destruct (l_long (getl s r)); [apply tframe_remove_long_timeout; auto|apply tframe_refl]).
+  assert (tdead s2 r) as D2 by (eapply tframe_dead; eauto).
+  clearbody s2 s1.
+  repeat break_inner; cbn [fst]; repeat frame_hyp;
+    match goal with |- tdead ?x r => apply (tframe_dead C s2 x r); [tf2|exact D2] end.
 Qed.
 
 (* ---------------------------------------------------------------- Lock *)
@@ -310,7 +484,7 @@ Proof.
   - apply updl_now. - apply updl_checkT. - rewrite updl_next; lia. - apply updl_twheel. - apply updl_tlong. - apply updl_mgrs.
   - intros r' l' H1. rewrite aget_updl in H1. destruct (r =? r') eqn:E.
     + apply N.eqb_eq in E; subst r'. destruct (aget (store s) r) eqn:G; cbn in H1; try discriminate. injection H1 as <-.
-      left. split; [apply Hf; apply (D _ G)|]. right. exists l. auto.
+      left. lsplit; [apply Hf; apply (D _ G)| |]; right; exists l; auto.
     + right. exists l'. lsplit; auto.
 Qed.
 
@@ -319,8 +493,8 @@ Ltac tf3 :=
   | |- tframe _ ?s (fst (new_lock ?x ?k ?conn ?c)) => apply (tframe_trans C s x); [tf3|apply tframe_new_lock; auto]
   | |- tframe _ ?s (setm ?x ?k new_mgr) => apply (tframe_trans C s x); [tf3|apply tframe_setm_new; assumption]
   | |- tframe _ ?s (fst (update_and_rearm ?x ?k ?r ?c)) =>
-      apply (tframe_trans C s x); [tf3|apply update_and_rearm_frame; [tdead3|auto]]
-  | |- tframe _ ?s (add_lock ?x ?k ?r) => apply (tframe_trans C s x); [tf3|apply add_lock_frame; tdead3]
+      apply (tframe_trans C s x); [tf3|apply update_and_rearm_frame; [tdead3|fresh3|auto]]
+  | |- tframe _ ?s (add_lock ?x ?k ?r) => apply (tframe_trans C s x); [tf3|apply add_lock_frame; [tdead3|fresh3]]
   | |- tframe _ ?s (updl ?x ?r ?f) =>
       apply (tframe_trans C s x);
       [tf3|first [solve [apply tframe_updl; updl_side]
@@ -339,45 +513,66 @@ with tdead3 :=
   | |- tdead (fst (new_lock ?x _ _ _)) (next ?x) => apply new_lock_dead
   | H : tdead ?y ?r |- tdead ?x ?r => apply (tframe_dead C y x r); [tf3|exact H]
   | |- tdead ?x (next ?y) => apply (tframe_dead C (fst (new_lock y _ _ _)) x (next y)); [tf3|apply new_lock_dead]
+  end
+with fresh3 :=
+  lazymatch goal with
+  | H : ?r < next ?x |- ?r < next ?x => exact H
+  | H : ?r < next ?y |- ?r < next ?x => apply (lt_next_frame C y x r); [tf3|exact H]
+  | |- next ?y < next (fst (new_lock ?y _ _ _)) => apply new_lock_next
+  | |- next ?y < next ?x => apply (lt_next_frame C (fst (new_lock y _ _ _)) x (next y)); [tf3|apply new_lock_next]
   end.
 
 Lemma tflag_lockid c x : c_tflag (c <| c_lockid := x |>) = c_tflag c. Proof. reflexivity. Qed.
 Lemma eflag_lockid c x : c_eflag (c <| c_lockid := x |>) = c_eflag c. Proof. reflexivity. Qed.
 Lemma data_lockid c x : c_data (c <| c_lockid := x |>) = c_data c. Proof. reflexivity. Qed.
 
+Lemma getm_fresh s k f : getm (bump f (setm s k new_mgr)) k = new_mgr.
+Proof. unfold getm, bump, updc, setm. cbn. rewrite N.eqb_refl. reflexivity. Qed.
+
+Lemma isholder_fresh_mgr s k f x : isholder (bump f (setm s k new_mgr)) x -> isholder s x.
+Proof.
+  intros (k' & m' & A & B). change (aget (aset (mgrs s) k new_mgr) k' = Some m') in A. rewrite aget_aset in A.
+  destruct (k =? k'). - injection A as <-. destruct B. - exists k', m'; auto.
+Qed.
+
 Lemma lock_step_shape s conn c :
-  HD s -> C c -> (forall x, C (c <| c_lockid := x |>)) ->
+  HD s -> HF s -> C c -> (forall x, C (c <| c_lockid := x |>)) ->
   tframe C s (fst (fst (lock_step s conn c))) \/
   (exists s0 c1, tframe C s s0 /\ next s0 = next s /\ now s0 = now s /\ checkT s0 = checkT s
       /\ (c1 = c \/ exists x, c1 = c <| c_lockid := x |>)
+      /\ (forall x, isholder s0 x -> isholder s x)
       /\ fst (fst (lock_step s conn c)) = queue_tail (fst (new_lock s0 (c_key c) conn c1)) (c_key c) (next s)
       /\ snd (fst (lock_step s conn c)) = [] /\ snd (lock_step s conn c) = None
       /\ (0 <? c_timeout c1) = true /\ has (c_tflag c1) TF_MILLISECOND = false).
 Proof.
-  intros HDs Cc Cx. unfold lock_step. cbv zeta.
+  intros HDs HFs Cc Cx. unfold lock_step. cbv zeta.
   repeat break_inner; cbn [fst snd];
   repeat match goal with E : new_lock _ _ _ _ = (_, _) |- _ => apply new_lock_split in E; destruct E; subst end;
   repeat frame_hyp;
   repeat match goal with
   | E : get_locked_lock ?x (getm ?x ?k) ?id = Some ?r |- _ =>
       lazymatch goal with D : tdead x r |- _ => fail | _ =>
-        assert (tdead x r) by (apply (HD_frame C s x HDs); [tf3|eapply get_locked_lock_holder; eauto]) end
+        assert (tdead x r) by (apply (HD_frame C s x HDs); [tf3|eapply get_locked_lock_holder; eauto]);
+        assert (r < next x) by (apply (HF_frame C s x HFs); [tf3|eapply get_locked_lock_holder; eauto]) end
   end.
   all: repeat match goal with
   | E : update_and_rearm ?x ?k ?r ?c1 = (?s', _) |- _ =>
       lazymatch goal with F : tframe C x s' |- _ => fail | _ =>
         let F := fresh "F" in
         assert (tframe C x s') as F
-          by (pose proof (update_and_rearm_frame x k r c1) as F; rewrite E in F; cbn [fst] in F; apply F; [tdead3|auto]) end
+          by (pose proof (update_and_rearm_frame x k r c1) as F; rewrite E in F; cbn [fst] in F; apply F; [tdead3|fresh3|auto]) end
   end.
+  all: try (exfalso; match goal with H : (0 <? m_locked (getm (bump _ (setm _ ?k new_mgr)) ?k)) = true |- _ =>
+              rewrite getm_fresh in H; discriminate H end).
   all: try (left; tf3; fail).
   all: try (exfalso; destruct (Ccore _ Cc) as (HA & HM & HE & HDa);
             match goal with H : context [TF_REQUIRE_ACKED] |- _ =>
               rewrite ?tflag_lockid in H; rewrite HA in H; rewrite ?andb_false_r in H; cbn [andb] in H; discriminate H end).
-  all: match goal with
+  all: try match goal with
        | |- tframe _ _ (bump _ (updl (add_timeout (add_wait_lock (fst (new_lock ?s0 _ _ ?c1)) _ _) _) _ _)) \/ _ =>
            right; exists s0, c1; lsplit;
             [tf3|reflexivity|reflexivity|reflexivity|(left; reflexivity) || (right; eexists; reflexivity)
+            |first [intros ? ?; assumption|apply isholder_fresh_mgr]
             |reflexivity|reflexivity|reflexivity
             |match goal with H : (0 <? c_timeout _) && _ = true |- _ => apply andb_prop in H; destruct H; assumption end
             |assumption]
